@@ -3,7 +3,7 @@
    Proofs/, with Print Assumptions beneath it; Examples show non-vacuity and
    that the side conditions are needed. *)
 From Coq Require Import String Ascii Arith Bool List Reals QArith Qcanon.
-From ESRV Require Import Common.Py Gen.GenCancel Model.InvSubsText Model.SubsCancel Proofs.InvSubsTextProofs Proofs.SubsCancelProofs Proofs.CancelGenProofs.
+From ESRV Require Import Common.Py Gen.GenCancel Model.InvSubsText Model.SubsCancel Proofs.InvSubsTextProofs Proofs.SubsCancelProofs Proofs.CancelGenProofs Proofs.CancelGenericProofs.
 Import ListNotations.
 Open Scope nat_scope.
 
@@ -172,6 +172,13 @@ Theorem C17_code_keeps_nan : forall (k : nat) (chain : list sub),
   exists c, gen_chain chain (all_dup k) = Some c /\ (In SNan c <-> In SNan chain).
 Proof. exact gen_keeps_nan. Qed.
 Print Assumptions C17_code_keeps_nan.
+
+(* for ANY element type and equality (strings, the float nan, ...): the translated function never raises and is the structural
+   one-pass cancellation *)
+Theorem C17_code_generic : forall (A : Type) (eqA : A -> A -> bool) (dup c : list A),
+  (exists r, GenCancel.simplify_inv_subs eqA (Some c) dup = Some r) /\ code_cancel eqA dup c = gcancel eqA dup c.
+Proof. exact (fun A eqA dup c => conj (code_never_raises eqA dup c) (code_cancel_is_gcancel eqA dup c)). Qed.
+Print Assumptions C17_code_generic.
 
 Example C17_ex_code_run :
   GenCancel.simplify_inv_subs sub_eqb (Some [SNeg 0; swap 1 0; swap 1 0; SOther 7; SInv 1; SInv 1]) (all_dup 2)
